@@ -32,7 +32,7 @@ var Root = func() string {
 
 // Ctx is one check run.
 type Ctx struct {
-	shareN int // runs started (FairShare)
+	shareN   int // runs started (FairShare)
 	Prop     string
 	Tier     string
 	Seed     int64
